@@ -249,6 +249,27 @@ class Effects:
             if e.attr in VIEW_ATTRS:
                 return self.val(e.value, st)
             base = self.val(e.value, st)
+            # a property getter of a known class: what the getter returns (a view of a field, or an object it builds)
+            getters = self._getters(f, e)
+            if getters:
+                out: Val = (frozenset(), frozenset())
+                for m in getters:
+                    cs = self.summ.get(m.qualname)
+                    if cs is None or not m.self_name:
+                        out = None
+                        break
+
+                    def tr(rs, m=m):
+                        o = set()
+                        for p_, lvl in rs:
+                            if p_ == FRESH[0]:
+                                o.add(FRESH)
+                            elif p_ == m.self_name:
+                                o |= set(base[0]) if lvl == 0 else set(base[1])
+                        return frozenset(o)
+                    out = vjoin(out, (tr(cs.ret[0]) or frozenset([FRESH]), tr(cs.ret[1]) or frozenset([FRESH])))
+                if out is not None:
+                    return out
             # attribute storage of an object belongs to the object's contents
             inner = deepen(base[0] | base[1])
             return (inner, inner)
@@ -286,6 +307,32 @@ class Effects:
         if isinstance(e, ast.Call):
             return self.call(e, st, record=False)
         return FRESHV
+
+    def _getters(self, f: Func, e: ast.Attribute):
+        """property getters `e` may read, when the class of the receiver is known and every candidate is a property"""
+        cache = self.__dict__.setdefault("_getter_cache", {})
+        k = id(e)
+        if k in cache:
+            return cache[k]
+        out = []
+        try:
+            envs = self.__dict__.setdefault("_env_cache", {})
+            env = envs.get(f.qualname)
+            if env is None:
+                env = envs[f.qualname] = self.res.env(f)
+            classes = self.res.expr_classes(f, e.value, env)
+        except Exception:
+            classes = set()
+        ok = bool(classes)
+        for c in classes:
+            cands = [c.lookup(e.attr)] + [o for o in c.overrides(e.attr)]
+            for m in cands:
+                if m is None or m.kind != "property":
+                    ok = False
+                elif m not in out:
+                    out.append(m)
+        cache[k] = out if ok else []
+        return cache[k]
 
     def _maybe_array(self, e, st) -> bool:
         """subscripting may produce a numpy view (as opposed to taking an element out of a python list)"""
